@@ -61,14 +61,14 @@ KB_U40 == <<
 
 \* --- U20: sixteen ~3 KB keys (separators of that size fill an interior page after five of them: interior splits,
 \*     three levels) that differ only in the last bytes, plus four short keys
-KB_U20 == TLCEval([j \in 1..20 |->
+KB_U20 == [j \in 1..20 |->
   IF j <= 16 THEN Str(LMNO) \o Rep(cx, 2990) \o Str(<<ca + (j \div 4), ca + (j % 4)>>)
-  ELSE IF j = 17 THEN Str(<<ca>>) ELSE IF j = 18 THEN Str(LMNO) ELSE IF j = 19 THEN Str(<<cz>>) ELSE <<>>])
+  ELSE IF j = 17 THEN Str(<<ca>>) ELSE IF j = 18 THEN Str(LMNO) ELSE IF j = 19 THEN Str(<<cz>>) ELSE <<>>]
 
 \* --- values: id -> length.  0, 1 and 5 bytes (tiny), 240/241 (value-length varint grows from 1 to 2 bytes),
 \*     two different 3000-byte values (in-place update), 6000 bytes
 VLen8 == <<0, 1, 5, 240, 241, 3000, 3000, 6000>>
-AllVals8 == TLCEval([k \in Keys |-> 1..8])
+AllVals8 == [k \in Keys |-> 1..8]
 
 Op(oo, k, v) == [o |-> oo, k |-> k, v |-> v]
 \* --- preload scripts over U6 (values: 8 = 6000 bytes, 6 = 3000 bytes)
@@ -123,10 +123,10 @@ Lowest(S) == CHOOSE k \in S : \A j \in S : ~KLt(j, k)
 Highest(S) == CHOOSE k \in S : \A j \in S : ~KLt(k, j)
 Above(S) == {k \in S : MaxPresent(m, k)}
 Below(S) == {k \in S : \A j \in Present(m) : KLt(k, j)}
-P4 == TLCEval([k \in Keys |-> RlePrefix4(KB[k])])
+P4 == [k \in Keys |-> RlePrefix4(KB[k])]
 ShortKeys == {k \in Keys : KLen[k] <= 8}
 \* the largest class of short keys sharing one 4-byte prefix hint
-PfxClass == TLCEval([k \in ShortKeys |-> {j \in ShortKeys : P4[j] = P4[k]}])
+PfxClass == [k \in ShortKeys |-> {j \in ShortKeys : P4[j] = P4[k]}]
 EqPrefixKeys == PfxClass[CHOOSE k \in ShortKeys : \A j \in ShortKeys : Cardinality(PfxClass[j]) <= Cardinality(PfxClass[k])]
 
 FillKeys ==
